@@ -1,0 +1,12 @@
+//go:build verif
+
+package lang
+
+// VerifRaw returns a copy of the job table (nil entries included) so the
+// verification harness can observe what GarbageCollect trimmed. Only built
+// with `-tags verif`.
+func (j *jobs) VerifRaw() []*Process {
+	j.mutex.Lock()
+	defer j.mutex.Unlock()
+	return append([]*Process(nil), j.jobs...)
+}
